@@ -4,9 +4,153 @@
    every check (Model/CheckC16.v); vocabulary: Proofs/TransformSpec.v (coherent, nan_ok, sentinel),
    Proofs/SummaryProofs.v (shown); WF is the invariant of C13; the lookup theorems are C04's. *)
 From Coq Require Import ZArith QArith List Sorted Permutation.
-From AC.Model Require Import Base GroupedList Labels Transform FormatRule.
+From AC.Model Require Import Base GroupedList Labels Transform FormatRule CheckC04 CheckC05.
 From AC.Model Require Import Float Combos Measures Carve CheckC01 Summary CheckC16.
-From AC.Proofs Require Import GroupedListSpec TransformSpec HistoryProofs.
+From AC.Proofs Require Import GroupedListSpec TransformSpec CheckC04Proofs SummaryProofs HistoryProofs.
+
+(* ---- summary: qualitative features ------------------------------------------------------------ *)
+
+(* every known non-numeric value (str_default and a hidden NaN sentinel aside) is shown in exactly
+   one row, and that row's label is the label transform outputs for the value (C04's lookup) *)
+Theorem C16_summary_partition : forall fmt st v,
+  coherent fmt st -> st_kind st = Qual -> nan_ok st ->
+  In v (values (st_order st)) -> shown st v ->
+  exists rows r,
+    summary_rows fmt st = Ok rows /\ In r rows /\ In v (r_content r) /\
+    (forall r', In r' rows -> In v (r_content r') -> r' = r) /\
+    lget v (st_lpv st) = Some (r_label r) /\
+    transform_cell st v = Ok (reinstate st (OLab (r_label r))).
+Proof. exact summary_partition. Qed.
+Print Assumptions C16_summary_partition.
+
+(* nothing else is shown: rows have distinct labels, are not empty, and every value they show is
+   a known value that had to be shown, under the label of its group *)
+Theorem C16_summary_values_known : forall fmt st rows,
+  coherent fmt st -> st_kind st = Qual -> nan_ok st ->
+  summary_rows fmt st = Ok rows ->
+  NoDup (map r_label rows) /\
+  forall r, In r rows ->
+    r_content r <> [] /\ NoDup (r_content r) /\
+    forall v, In v (r_content r) ->
+      In v (values (st_order st)) /\ shown st v /\ lget v (st_lpv st) = Some (r_label r).
+Proof. exact summary_values_known. Qed.
+Print Assumptions C16_summary_values_known.
+
+(* ---- summary: quantitative features ----------------------------------------------------------- *)
+
+(* one row per fitted group: the summary never fails, its row labels are pairwise distinct and
+   are exactly the labels of the groups (a permutation of them when these are distinct, which
+   C04_str_labels_distinct / C04_float_labels_distinct establish) *)
+Theorem C16_summary_quantitative_rows : forall fmt st,
+  coherent fmt st -> st_kind st = Quant -> nan_ok st -> sentinel st ->
+  exists rows,
+    summary_rows fmt st = Ok rows /\
+    NoDup (map r_label rows) /\
+    (forall l, In l (map r_label rows) <-> In l (labels_of fmt st)) /\
+    (NoDup (labels_of fmt st) ->
+       Permutation (map r_label rows) (labels_of fmt st) /\
+       List.length rows = List.length (keys (st_order st))).
+Proof. exact summary_quantitative_rows. Qed.
+Print Assumptions C16_summary_quantitative_rows.
+
+(* what a row shows: the raw ('str') interval labels of the values carrying its label, plus the
+   missing-value sentinel in the row of the group that holds it *)
+Theorem C16_summary_quantitative_content : forall fmt st rows r c,
+  coherent fmt st -> st_kind st = Quant -> nan_ok st -> sentinel st ->
+  summary_rows fmt st = Ok rows -> In r rows ->
+  (In c (r_content r) <->
+     (exists v, lget v (st_lpv st) = Some (r_label r) /\ hidden_nan st v = false /\
+                lget v (raw_lpv fmt st) = Some (LVal c))
+     \/ (c = st_nan st /\ In (st_nan st) (values (st_order st)) /\
+         lget (get_group (st_order st) (st_nan st)) (st_lpv st) = Some (r_label r))).
+Proof. exact summary_quantitative_content. Qed.
+Print Assumptions C16_summary_quantitative_content.
+
+(* missing values are shown in the row of get_group(str_nan), whose label is the one transform
+   gives them when they are kept *)
+Theorem C16_summary_nan_row : forall fmt st i k,
+  coherent fmt st -> st_kind st = Quant -> nan_ok st -> sentinel st ->
+  nth_error (keys (st_order st)) i = Some k -> In (st_nan st) (get (st_order st) k) ->
+  get_group (st_order st) (st_nan st) = k /\
+  exists rows r l,
+    summary_rows fmt st = Ok rows /\ In r rows /\ In (st_nan st) (r_content r) /\
+    label_at fmt st i = Some l /\ r_label r = l /\
+    transform_cell st VNaN = Ok (if st_dropna st then OLab l else OMissing).
+Proof. exact summary_nan_row. Qed.
+Print Assumptions C16_summary_nan_row.
+
+(* ... and in no other row (str_nan without space; when it is a leader it is the last one, as in
+   every fitted object: otherwise zip(values, labels) misaligns and the statement fails) *)
+Theorem C16_summary_nan_row_unique : forall fmt st rows r s,
+  coherent fmt st -> st_kind st = Quant -> nan_ok st -> sentinel st ->
+  st_nan st = VStr s -> no_space s = true ->
+  (In (st_nan st) (keys (st_order st)) -> exists pre, keys (st_order st) = pre ++ [st_nan st]) ->
+  summary_rows fmt st = Ok rows -> In r rows -> In (st_nan st) (r_content r) ->
+  lget (get_group (st_order st) (st_nan st)) (st_lpv st) = Some (r_label r).
+Proof. exact summary_nan_row_unique. Qed.
+Print Assumptions C16_summary_nan_row_unique.
+
+(* ---- summary: the object ---------------------------------------------------------------------- *)
+
+(* summary(f) contains rows of f only (after the repair "fix: summary(feature) no longer lists the
+   missing-value rows of other quantitative features") *)
+Theorem C16_summary_feature_only : forall o f rows,
+  summary_obj o (Some f) = Ok rows -> forall r, In r rows -> fst r = f.
+Proof. exact summary_feature_only. Qed.
+Print Assumptions C16_summary_feature_only.
+
+(* ... exactly the rows of f in summary() *)
+Theorem C16_summary_feature_is_filter : forall o f rows all,
+  summary_obj o (Some f) = Ok rows -> summary_obj o None = Ok all ->
+  rows = filter (fun r => String.eqb (fst r) f) all.
+Proof. exact summary_feature_is_filter. Qed.
+Print Assumptions C16_summary_feature_is_filter.
+
+(* summary() lists kept features only, each with the rows of its own state *)
+Theorem C16_summary_kept_features : forall o all,
+  summary_obj o None = Ok all ->
+  (forall r, In r all -> exists x, In x o /\ of_name x = fst r) /\
+  (forall x rows, In x o -> summary_rows (of_fmt x) (of_state x) = Ok rows ->
+     forall r, In r rows -> In (of_name x, r) all).
+Proof. exact summary_kept_features. Qed.
+Print Assumptions C16_summary_kept_features.
+
+(* a name that is not a kept feature is refused with AssertionError *)
+Theorem C16_summary_unknown_feature : forall o f,
+  (forall x, In x o -> of_name x <> f) -> summary_obj o (Some f) = AssertErr.
+Proof. exact summary_unknown_feature. Qed.
+Print Assumptions C16_summary_unknown_feature.
+
+(* non-vacuity: a quantitative feature whose missing values were merged into the last group and a
+   qualitative one with a default group; the premises hold and the rows are the expected ones *)
+Example C16_summary_nonvacuous :
+  let q := mkTCase true Quant [VNum 1; VPInf]
+             [(VNum 1, [VNum 1]); (VPInf, [VNum 3; VPInf; VStr "__NAN__"])]
+             (VStr "__NAN__") (VStr "__OTHER__") true OFloat
+             [[(VNum 1, "1.000e+00"%string)]] 1 [] [] [] (IOk []) in
+  let c := mkTCase true Qual [VStr "__OTHER__"; VStr "a"]
+             [(VStr "__OTHER__", [VStr "z"; VNum 7; VStr "7"; VStr "__OTHER__"]); (VStr "a", [VStr "a"])]
+             (VStr "__NAN__") (VStr "__OTHER__") true OStr [] 1 [] [] [] (IOk []) in
+  coherent (t_fmt q) (t_state q) /\ nan_ok (t_state q) /\ sentinel (t_state q) /\
+  coherent (t_fmt c) (t_state c) /\ shown (t_state c) (VStr "z") /\
+  summary_obj [mkOF "q" (t_fmt q) (t_state q); mkOF "c" (t_fmt c) (t_state c)] None =
+    Ok [("q"%string, mkRow (LRank 0) [VStr "x <= 1.000e+00"]);
+        ("q"%string, mkRow (LRank 1) [VStr "1.000e+00 < x"; VStr "__NAN__"]);
+        ("c"%string, mkRow (LVal (VStr "__OTHER__")) [VStr "z"; VStr "7"]);
+        ("c"%string, mkRow (LVal (VStr "a")) [VStr "a"])] /\
+  summary_obj [mkOF "q" (t_fmt q) (t_state q); mkOF "c" (t_fmt c) (t_state c)] (Some "c"%string) =
+    Ok [("c"%string, mkRow (LVal (VStr "__OTHER__")) [VStr "z"; VStr "7"]);
+        ("c"%string, mkRow (LVal (VStr "a")) [VStr "a"])].
+Proof.
+  cbv zeta.
+  split; [apply premises_sound; vm_compute; reflexivity|].
+  split; [apply premises_sound; vm_compute; reflexivity|].
+  split; [apply premises_sound; vm_compute; reflexivity|].
+  split; [apply premises_sound; vm_compute; reflexivity|].
+  split.
+  - split; [vm_compute; reflexivity|]. split; [discriminate|]. left. reflexivity.
+  - split; vm_compute; reflexivity.
+Qed.
 
 (* ---- history ------------------------------------------------------------------------------- *)
 
